@@ -158,6 +158,11 @@ func runC08(c *core.Ctx) {
 					c.OK("C08.source", key, in.Pos(), "confirmed exception: "+reason)
 					continue
 				}
+				// the same construct moved between a function and a helper only it calls
+				if reason, ok := sourceExceptions[core.ShortFn(c.GroupRoot(fn))+"|"+name]; ok {
+					c.OK("C08.source", key, in.Pos(), "confirmed exception: "+reason)
+					continue
+				}
 				c.Bad("C08.source", key, in.Pos(), fmt.Sprintf("%s (%s) reachable from consensus code via %s", what, nondetCalls[name], core.PathTo(reach, fn)))
 			}
 		}
